@@ -46,6 +46,7 @@ func LoadReplay(dir string) error {
 	}
 	replay.Inputs, replay.Choices, replay.Failed, replay.Checked = nil, nil, nil, nil
 	replay.pos, replay.cho, replay.assumes = 0, 0, 0
+	nativeEmptyCtxCalls = 0
 	return json.Unmarshal(b, &replay)
 }
 
@@ -206,7 +207,17 @@ func nativeCtx(what string) sdk.Context {
 	nativeUsedEnv = true
 	return NativeEnv.Ctx()
 }
-func nEmptyCtx() sdk.Context  { return nativeCtx("EmptyCtx") }
+var nativeEmptyCtxCalls int
+
+// the native run has ONE real store: a harness that needs two independent empty stores (genesis export / import) cannot
+// be replayed on it
+func nEmptyCtx() sdk.Context {
+	nativeEmptyCtxCalls++
+	if nativeEmptyCtxCalls > 1 {
+		panic(notReplayable("EmptyCtx (a second independent store)"))
+	}
+	return nativeCtx("EmptyCtx")
+}
 func nClosedCtx() sdk.Context { return nativeCtx("ClosedCtx") }
 func nWire(dst interface{}) {
 	if NativeEnv.Wire == nil || !NativeEnv.Wire(dst) {
